@@ -281,9 +281,55 @@ def run_c17(ctx, tier=None, seed=None):
         for b, arg in C17_RUNS:
             res = pipe(ctx, 'model-%s-%s' % (fs, b), "cat %s | { grep -E '^(bin|from|conv) ' || true; }" % files[(fs, b)], shards=1, tier=tier, seed=seed)
             absorb(ctx, res, 'model-%s-%s' % (fs, b))
+    if tier == 'thorough':
+        search_c17(ctx)     # the std / no_std comparison once more in optimised builds
 
 
-spec('C17', run=run_c17, search=None,
+def search_c17(ctx):
+    """an obligation broke and the debug transcripts agree: repeat the std / no_std comparison in *optimised* builds
+    (constant folding of intrinsics — e.g. `llvm.powi` through the host `pow` — only happens there)"""
+    import subprocess
+    outdir = os.path.join(VERIF, 'build', 'c17')
+    os.makedirs(outdir, exist_ok=True)
+    sets = ['fl', 'fl-nostd']
+    for fs in sets:
+        if not cargo_build(ctx, fs, ['ops', 'conv'], release=True):
+            return
+    env = dict(os.environ)
+    env.update({'VERIF_SEED': str(ctx.seed), 'VERIF_TIER': 'quick', 'VERIF_N': '24', 'VERIF_NRANDOM': '4'})
+    env.pop('VERIF_SHARD', None)
+    out = {}
+    for fs in sets:
+        for b, arg in C17_RUNS:
+            path = os.path.join(outdir, '%s.%s.release.txt' % (fs, b))
+            if subprocess.call('%s %s > %s' % (bin_path(b, True, fs), arg, path), shell=True, env=env) != 0:
+                ctx.problems.append(Problem('harness-broken', 'release transcript run failed (%s %s)' % (fs, b)))
+                return
+            out[(fs, b)] = open(path, encoding='utf-8').read().splitlines()
+    from main import load_known, kf_entry
+    f8 = kf_entry(load_known(), 'F8')
+    allowed = set(tuple(x) for x in (f8 or {}).get('key', {}).get('allowed', []))
+    names = ['floor', 'ceil', 'round', 'trunc', 'fract']
+    n = 0
+    for b, _ in C17_RUNS:
+        la, lb = out[('fl', b)], out[('fl-nostd', b)]
+        for x, y in zip(la, lb):
+            if x == y:
+                continue
+            fx, fy = x.split(' '), y.split(' ')
+            if fx[0] == 'rnd' and len(fx) == len(fy) == 16 and fx[:11] == fy[:11]:
+                d = [i for i in range(11, 16) if fx[i] != fy[i]]
+                if all((fx[1], names[i - 11], fx[i], fy[i]) in allowed for i in d):
+                    continue        # known finding F8
+            n += 1
+            if n <= 20:
+                ctx.problems.append(Problem('property-fails', 'std on/off, %s, optimised build: results differ between feature sets fl and fl-nostd' % b,
+                                            detail='%s\n%s' % (x, y), line=x, failing_input=True,
+                                            cmd='%s %s (release) vs %s %s (release)' % (bin_path(b, True, 'fl'), _, bin_path(b, True, 'fl-nostd'), _)))
+    log('search (release std vs no_std): %d differing lines' % n)
+
+
+spec('C17', run=run_c17, search=search_c17,
      rule='one seeded transcript per feature set {autoconvert on,off} × {std on,off}: every same-base binary form of 11 quantities × 4 base-unit sets × f32/f64 '
           '(ops same) and construction/read-back/rounding of 140 units × 9 base-unit sets (conv others); transcripts must be byte-identical; the non-default '
           'configurations are additionally run through the Lean model; non-trivial = distinct lines of the default-feature transcript',
